@@ -100,17 +100,22 @@ def held_elems(p, n):
     return {k: p.locks.get(elem(k)) for k in range(n) if p.locks.get(elem(k)) in ("W", "R")}
 
 
-def faulted_elem(p):
-    """element whose own operation unwound on this path (the single injected fault), if any"""
+def faulted_elems(p):
+    """elements whose own operation unwound on this path (the injected faults)"""
+    out = []
     for e in p.events:
         if e["k"] == "UNWIND_AT" and e.get("recv", "").startswith(LID):
-            return e["recv"]
-        if e["k"] == "UNWIND_AT" and e.get("what") == "TRY":
-            # the TRY event just before
+            out.append(e["recv"])
+        elif e["k"] == "UNWIND_AT" and e.get("what") == "TRY":
             prev = [x for x in p.events[:e["i"]] if x["k"] == "TRY"]
             if prev:
-                return prev[-1]["recv"]
-    return None
+                out.append(prev[-1]["recv"])
+    return out
+
+
+def faulted_elem(p):
+    f = faulted_elems(p)
+    return f[0] if f else None
 
 
 def alg_functions(ctx):
@@ -153,7 +158,7 @@ def _run_all(ctx, tier_n):
                 if n > 3:
                     continue
                 ll = (n + 2) * (RETRIES + 1)      # RETRIES full retry rounds, then the path is cut
-            paths, err = explore(ctx, f, nn, mode, kind, faults=1, loop_limit=ll, preheld=pre)
+            paths, err = explore(ctx, f, nn, mode, kind, faults=tier_faults(), loop_limit=ll, preheld=pre)
             out[(label, n)] = (f, kind, mode, paths, err)
     return out
 
@@ -161,6 +166,11 @@ def _run_all(ctx, tier_n):
 def tier_n():
     import os
     return THOROUGH_N if os.environ.get("HLV_TIER") == "thorough" else QUICK_N
+
+
+def tier_faults():
+    import os
+    return 2 if os.environ.get("HLV_TIER") == "thorough" else 1
 
 
 def _viol(res, rule, f, site, msg):
@@ -423,6 +433,7 @@ def rule_Q4(ctx, R):
                 continue
             nf += 1
             site = _site_of(p, n)
+            fes = set(faulted_elems(p))
             fe = faulted_elem(p)
             if p.kind == "ret":
                 ok = False
@@ -430,7 +441,7 @@ def rule_Q4(ctx, R):
                 continue
             if p.kind != "unwind":
                 continue
-            h = {k: m for k, m in held_elems(p, n).items() if elem(k) != fe}
+            h = {k: m for k, m in held_elems(p, n).items() if elem(k) not in fes}
             if h:
                 ok = False
                 _viol(res, "Q4", f, "leak:" + site, "%s: after a panic in %s the call unwinds with lock(s) %s still held "
@@ -439,10 +450,10 @@ def rule_Q4(ctx, R):
                 if pr["k"] == "REL_NOT_HELD":
                     ok = False
                     what = "releases %s although %s" % (pr.get("recv"), {"U": "this call does not hold it", "K": "it was killed"}.get(pr.get("have"), pr.get("have")))
-                    _viol(res, "Q4", f, "bad-release:" + site + ":" + ("faulted" if pr.get("recv") == fe else "other"),
+                    _viol(res, "Q4", f, "bad-release:" + site + ":" + ("faulted" if pr.get("recv") in fes else "other"),
                           "%s: after a panic in %s the unwind path %s (n=%d; path: %s)" % (label, site, what, n, p.trace()[:500]))
             killed = [r for r, m in p.locks.items() if m == "K" and r != fe and r.startswith(LID)]
-            kills = [e["recv"] for e in p.ev("KILL") if e["recv"] != fe]
+            kills = [e["recv"] for e in p.ev("KILL") if e["recv"] not in fes]
             if kills:
                 ok = False
                 _viol(res, "Q4", f, "kills-others:" + site, "%s: after a panic in %s locks other than the faulted one are killed: %s "
